@@ -1,3 +1,3 @@
 // vacuity guards: each of these must FAIL
 proof fn vx_canary_axioms() ensures false { broadcast use group_ring; }
-proof fn vx_canary_statement_ctor_ok(s: RangeStatement<P>) requires s.ctor_ok() ensures false {}
+proof fn vx_canary_statement_ctor_ok(s: RangeStatement<P>) requires s.ctor_ok() ensures false { reveal(RangeStatement::ctor_ok); reveal(RangeParameters::ctor_ok); }
